@@ -725,6 +725,19 @@ impl<T> OnceCell<T> {
     }
 }
 
+#[cfg(all(smol_rs_async_lock_verif, feature = "std"))]
+impl<T> OnceCell<T> {
+    /// Verification hook: `(state, active_initializers listeners,
+    /// passive_waiters listeners)`.
+    pub fn verif_state(&self) -> (usize, usize, usize) {
+        (
+            self.state.load(Ordering::SeqCst),
+            self.active_initializers.total_listeners(),
+            self.passive_waiters.total_listeners(),
+        )
+    }
+}
+
 impl<T> From<T> for OnceCell<T> {
     /// Create a new, initialized `OnceCell` from an existing value.
     ///
